@@ -150,6 +150,14 @@ pub fn streams(thorough: bool) -> Vec<(String, Vec<u8>)> {
     }
     s.extend_from_slice(b"GET /trunc HTTP/1.1\r\nX-a");
     out.push(("five_pipelined_then_truncated".into(), s));
+    // many minimal requests completing inside one read
+    for count in [20usize, 56] {
+        let mut s = vec![];
+        for i in 0..count {
+            s.extend_from_slice(if i % 2 == 0 { &b"GET / HTTP/1.1\r\n\r\n"[..] } else { &b"PUT / HTTP/1.0\r\n\r\n"[..] });
+        }
+        out.push((format!("{}_minimal_pipelined_requests", count), s));
+    }
     // malformed tail after good requests
     let mut s = request("GET", "/ok", &[], b"");
     s.extend_from_slice(&filler_header(30)[..]);
@@ -159,7 +167,7 @@ pub fn streams(thorough: bool) -> Vec<(String, Vec<u8>)> {
     out.push(("good_then_oversized_declaration".into(), s));
     if !thorough {
         // quick: keep a representative third
-        let keep: Vec<(String, Vec<u8>)> = out.into_iter().enumerate().filter(|(i, _)| i % 3 == 0).map(|(_, x)| x).collect();
+        let keep: Vec<(String, Vec<u8>)> = out.into_iter().enumerate().filter(|(i, x)| i % 3 == 0 || x.0.starts_with("20_minimal")).map(|(_, x)| x).collect();
         return keep;
     }
     out
